@@ -180,17 +180,26 @@ Proof.
   inversion H2 as [|? ? H3 _]; subst. lia.
 Qed.
 
-(* the correspondence check accepts a faithful observation and rejects the edits named in the design *)
+(* the two levels of the correspondence check.  c08_check (property level: points strictly increasing, a step apart except a
+   final remainder, last point = total, columns = prefix scores, last column = final scores, results unchanged) accepts a
+   faithful observation and also a variant that is NOT the state machine but keeps the property (points every step + 1:
+   ">" for ">="), which only c08_corr (correspondence level) tells apart; c08_check rejects: final column never appended,
+   final column appended twice, points closer than a step, stale scores *)
 Example c08_check_discriminates :
   let f x := Fin (Z.of_nat x) 0 in
-  let mk comps ncols mk_marks convs := {|
+  let mk comps ncols mk_marks pts convs prefix := {|
     c8_step := 2; c8_runs := [(5, 2)]; c8_prec := F64; c8_width := 1;
-    c8_obs_computes := comps; c8_obs_ncols := ncols; c8_obs_marks := Some mk_marks; c8_obs_conv := convs;
+    c8_obs_computes := comps; c8_obs_ncols := ncols; c8_obs_points := pts; c8_obs_marks := Some mk_marks; c8_obs_conv := convs;
     c8_obs_scores := [f 5]; c8_obs_results := [f 5];
-    c8_prefix_scores := [[f 2]; [f 4]; [f 5]]; c8_plain_scores := [f 5]; c8_plain_results := [f 5] |} in
-  c08_check (mk [(2, 0); (4, 1); (5, 2)] [3] [4; 5] [[f 2]; [f 4]; [f 5]]) = true
-  /\ c08_check (mk [(4, 0); (5, 1)] [2] [4; 5] [[f 4]; [f 5]]) = false                        (* > for >= *)
-  /\ c08_check (mk [(2, 0); (4, 1); (5, 2)] [3] [0; 2; 4; 5] [[f 2]; [f 4]; [f 5]]) = false   (* marks not reset *)
-  /\ c08_check (mk [(2, 0); (4, 1); (5, 2)] [2] [4; 5] [[f 2]; [f 4]]) = false                (* final column never *)
-  /\ c08_check (mk [(2, 0); (4, 1); (5, 2)] [3] [4; 5] [[f 2]; [f 2]; [f 5]]) = false.        (* stale scores *)
+    c8_prefix_scores := prefix; c8_plain_scores := [f 5]; c8_plain_results := [f 5] |} in
+  let good := mk [(2, 0); (4, 1); (5, 2)] [3] [4; 5] [2; 4; 5] [[f 2]; [f 4]; [f 5]] [[f 2]; [f 4]; [f 5]] in
+  let gt_for_ge := mk [(4, 0); (5, 1)] [2] [4; 5] [4; 5] [[f 4]; [f 5]] [[f 4]; [f 5]] in
+  c08_check good = true /\ c08_corr good = true
+  /\ c08_check gt_for_ge = true /\ c08_corr gt_for_ge = false                                                (* internal only *)
+  /\ c08_corr (mk [(2, 0); (4, 1); (5, 2)] [3] [0; 2; 4; 5] [2; 4; 5] [[f 2]; [f 4]; [f 5]] [[f 2]; [f 4]; [f 5]]) = false  (* marks *)
+  /\ c08_check (mk [(2, 0); (4, 1); (5, 2)] [2] [4; 5] [2; 4] [[f 2]; [f 4]] [[f 2]; [f 4]]) = false          (* final column never *)
+  /\ c08_check (mk [(2, 0); (4, 1); (5, 2)] [4] [4; 5] [2; 4; 5; 5] [[f 2]; [f 4]; [f 5]; [f 5]] [[f 2]; [f 4]; [f 5]; [f 5]])
+     = false                                                                                                   (* final column twice *)
+  /\ c08_check (mk [(2, 0); (3, 1); (5, 2)] [3] [4; 5] [2; 3; 5] [[f 2]; [f 3]; [f 5]] [[f 2]; [f 3]; [f 5]]) = false  (* closer than a step *)
+  /\ c08_check (mk [(2, 0); (4, 1); (5, 2)] [3] [4; 5] [2; 4; 5] [[f 2]; [f 2]; [f 5]] [[f 2]; [f 4]; [f 5]]) = false. (* stale scores *)
 Proof. vm_compute. repeat split; reflexivity. Qed.
